@@ -1,6 +1,7 @@
 package main
 
 import (
+	"sync/atomic"
 	"bytes"
 	"compress/gzip"
 	"encoding/json"
@@ -66,12 +67,23 @@ type countingWriter struct {
 	failAt int
 	kind   int
 	yield  bool
+	slow   bool
 	r      *Rng
+	// returned is set when Encode has returned; a Write that starts afterwards is background
+	// activity the call left behind
+	returned atomic.Bool
+	late     atomic.Int32
 }
 
 var errSinkFail = errors.New("sink: write failed")
 
 func (w *countingWriter) Write(p []byte) (int, error) {
+	if w.returned.Load() {
+		w.late.Add(1)
+	}
+	if w.slow {
+		time.Sleep(150 * time.Microsecond)
+	}
 	if w.yield {
 		runtime.Gosched()
 		if w.r != nil && w.r.Chance(0.05) {
@@ -127,6 +139,9 @@ func c14Run(in c14Input, r *Rng) c14Obs {
 		defer runtime.GOMAXPROCS(runtime.GOMAXPROCS(in.Procs))
 	}
 	w := &countingWriter{failAt: in.K, kind: in.ErrKind, yield: in.Yield, r: r}
+	// a document whose marshalling fails late, written to a slow output: whatever the call started
+	// must have stopped writing by the time it returns
+	w.slow = in.BadDoc == 2 && in.Yield
 	var db any = c14DB(in)
 	switch in.BadDoc {
 	case 1:
@@ -150,6 +165,7 @@ func c14Run(in c14Input, r *Rng) c14Obs {
 	var o c14Obs
 	select {
 	case err := <-done:
+		w.returned.Store(true)
 		o.Returned = true
 		o.Err = err != nil
 		if err != nil {
@@ -165,7 +181,10 @@ func c14Run(in c14Input, r *Rng) c14Obs {
 		}
 		time.Sleep(5 * time.Millisecond)
 	}
-	o.Leak = encoderGoroutines() > 0
+	o.Leak = encoderGoroutines() > 0 || w.late.Load() > 0
+	if w.late.Load() > 0 {
+		o.Detail += fmt.Sprintf(" [%d writes to the output began after Encode had returned]", w.late.Load())
+	}
 	o.Writes = w.writes
 	o.Out = w.buf.Bytes()
 	return o
